@@ -2,6 +2,7 @@
 // M1 over file states (sequences of exports to one path followed by an import), M3 over shapes x value patterns x
 // headers x units, and over the four build configurations g++/clang++ x -O0/-O2 of Natural_Units.cpp.
 #include "mc/mc.hpp"
+#include <locale>
 #include "mc/exit_trap.hpp"
 #include "libphysica/Utilities.hpp"
 #include "libphysica/Natural_Units.hpp"
@@ -215,6 +216,74 @@ static void file_states(unsigned long long& unit)
 				if(!ok) fail("file_state", key, "last_export_does_not_win", "the import after a sequence of exports to one path does not return the last exported table");
 				unlink(path.c_str());
 			}
+}
+
+// ---- the ends of "any finite values": file entries below DBL_MIN (subnormal as written, six digits still representable), and the
+// same round trips while the program runs under a global C++ locale with a decimal comma / with digit grouping ----------------------
+struct CommaPunct : std::numpunct<char> { char do_decimal_point() const override { return ','; } };
+struct GroupedPunct : std::numpunct<char> { char do_decimal_point() const override { return ','; } char do_thousands_sep() const override { return '.'; } std::string do_grouping() const override { return "\3"; } };
+static void round_trips(const std::string& tag)
+{
+	std::string base = g_dir + "/c20_env_" + std::to_string(getpid());
+	struct T { const char* name; VV data; V dims; std::string header; int hl; };
+	std::vector<T> ts = {
+		{"plain_3x2", {{1.5, -2.25}, {1234.5678, 0.000314159}, {-7.0e20, 200000.0}}, {}, "", 0},
+		{"units_4x3_header", {{1.5e-7, -2.25e12, 3.0}, {9.87654e-8, 6.02214e13, -4.0}, {1.0e-6, 1.0e11, 0.5}, {2.5e-7, -3.3333333e12, 123456.0}}, {1e-6, 1e12, 1.0}, "# a\tb\tc\n# second line", 2},
+		{"subnormal_as_written", {{4.5e-310, -6.75e-312}, {1.25e-308, -2.5e-309}, {1.0, 3.25e-312}}, {}, "# x y", 1},
+		{"subnormal_through_unit", {{3.25e-300, 1.0e12}, {-7.5e-299, 2.0e12}, {1.125e-298, -4.0e12}}, {1e12, 1e12}, "", 0},
+	};
+	for(auto& t : ts)
+	{
+		std::string key = tag + "," + t.name;
+		VV back;
+		if(mc::library_exits([&]() { Export_Table(base + "_t.txt", t.data, t.dims, t.header); back = Import_Table(base + "_t.txt", t.dims, t.hl); })) { fail("environment", key, "terminated_process", "a valid export/import ended the process"); continue; }
+		g_cases++;
+		g_trans += 2;
+		bool ok = back.size() == t.data.size();
+		for(size_t i = 0; ok && i < t.data.size(); i++)
+		{
+			ok = back[i].size() == t.data[i].size();
+			for(size_t j = 0; ok && j < t.data[i].size(); j++) ok = six_digits(back[i][j], t.data[i][j], t.dims.empty() ? 1.0 : t.dims[j]);
+		}
+		if(!ok) fail("environment", key, "table_not_reproduced", "shape or a value differs after the round trip (" + std::to_string(back.size()) + " rows read)");
+	}
+	for(double dim : {1.0, 1e12})
+	{
+		V data{1.5, -2.25e-3, 3.25e-300, 6.02214e23, -4.5e-299, 200000.0}, back;
+		std::string key = tag + ",list,unit=" + mc::dec(dim);
+		if(mc::library_exits([&]() { Export_List(base + "_l.txt", data, dim, "# list"); back = Import_List(base + "_l.txt", dim, 1); })) { fail("environment", key, "terminated_process", "a valid export/import ended the process"); continue; }
+		g_cases++;
+		g_trans += 2;
+		bool ok = back.size() == data.size();
+		for(size_t i = 0; ok && i < data.size(); i++) ok = six_digits(back[i], data[i], dim);
+		if(!ok) fail("environment", key, "list_not_reproduced", std::to_string(back.size()) + " values read back");
+	}
+	{
+		auto f = [](double x) { return 1234.5 * x - 0.001 / (1 + x * x); };
+		VV back;
+		std::string key = tag + ",function";
+		V xs = Linear_Space(0.5, 3.5, 7);
+		if(mc::library_exits([&]() { Export_Function(base + "_f.txt", f, xs, V{1e-3, 1e3}, "# x f"); back = Import_Table(base + "_f.txt", V{1e-3, 1e3}, 1); })) { fail("environment", key, "terminated_process", "a valid export/import ended the process"); }
+		else
+		{
+			g_cases++;
+			g_trans += 2;
+			bool ok = back.size() == xs.size();
+			for(size_t i = 0; ok && i < xs.size(); i++) ok = back[i].size() == 2 && six_digits(back[i][0], xs[i], 1e-3) && six_digits(back[i][1], f(xs[i]), 1e3);
+			if(!ok) fail("environment", key, "function_not_reproduced", "rows differ after the round trip");
+		}
+	}
+	unlink((base + "_t.txt").c_str()); unlink((base + "_l.txt").c_str()); unlink((base + "_f.txt").c_str());
+}
+static void environments()
+{
+	round_trips("locale=classic");
+	std::locale before = std::locale::global(std::locale(std::locale::classic(), new CommaPunct));
+	round_trips("locale=decimal_comma");
+	std::locale::global(std::locale(std::locale::classic(), new GroupedPunct));
+	round_trips("locale=decimal_comma_grouped");
+	std::locale::global(before);
+	round_trips("locale=classic_again");
 }
 
 static void in_units()
@@ -482,7 +551,7 @@ int main(int argc, char** argv)
 	g_dir = mc::ctx().tmp;
 	mc::bound("rule", "round trip: shapes {1,2,3,7,200}x{1,2,5,12} x 4 value patterns (integers, six-digit decimals over 600 decades, long fractions, dyadics) x headers {0,1,3 lines} x 3 unit arrangements over 60 decades, lists, both Export_Function overloads; file states: every sequence of two (thorough: three) exports to one path followed by an import; In_Units overloads on dyadic data; unit constants in the four configurations g++/clang++ x -O0/-O2 read after start-up; state = file contents / build configuration, transition = one export, import or constant read");
 	unsigned long long unit = 0;
-	if(mc::shard0()) { in_units(); configurations(); }
+	if(mc::shard0()) { in_units(); configurations(); environments(); }
 	tables(unit);
 	lists_and_functions(unit);
 	function_orders(unit);
